@@ -82,7 +82,9 @@ def opPfScope (args : List SExp) : Option OpResult := do
         -- C12: a principal or home-set path other than the current user's exposes nothing of the current user's
         let foreign := (level == .principal && path != h.principal) || (level == .homeSet && path != h.homeSet)
         pure ⟨impl, fun got => mustEqual "C11" cls want got ++
-          (if foreign && got.startsWith "207" && got != "207 ( )" then [("C12", s!"{server}-foreign-path-exposes-resources")] else [])⟩
+          (if foreign && got.startsWith "207" && got != "207 ( )" then [("C12", s!"{server}-foreign-path-exposes-resources")] else []) ++
+          -- a path answered at the wrong level (a multi-status where none is due or the reverse) is a routing defect
+          (if got != want && (got.startsWith "207") != (want.startsWith "207") then [("C12", s!"{cls}-routed-to-another-level")] else [])⟩
   | _ => none
 
 /-- `pf.prin <principal> ( ( cal|card <path> ) … ) => ( ( cal <href> ) ( card <href> ) ( cup <href> ) )`: the principal
